@@ -337,8 +337,21 @@ func c14(r *core.Report) {
 	r.Rule("C14-RESP-FENCE", "mbapp writes the asker's response buffer only under the ask's once, and a cancelled Ask passes through that once before returning", 2)
 	ruleRespFence(r, "C14-RESP-FENCE")
 
+	// ---- C14-DELIVER-OWNED
+	r.Rule("C14-DELIVER-OWNED", "the payload a layer hands to a hub or queue is not backed by a slice held in shared state (a struct field another worker also decrypts/assembles into)", 8)
+	ruleDeliverOwned(r, h, "C14-DELIVER-OWNED")
+
 	// ---- C14-FREELIST
 	r.Rule("C14-FREELIST", "queue buffers: back to the freelist only after the callback, zeroed; payload rebuilt from length 0 before queueing", 3)
+	ruleFreelist(r, h, "C14-FREELIST")
+}
+
+// ruleFreelist: queue slots return to the freelist only after the receive callback returned, zeroed, and
+// a queued message has its payload rebuilt from length 0. Shared by C14 (buffer ownership) and C13 (a slot
+// handed back early is overwritten by the next Deliver while the callback still runs: one message is seen
+// by two callbacks and another by none).
+func ruleFreelist(r *core.Report, h *hubSlots, ruleID string) {
+	p := r.P
 	{
 		recv := h.fns["Queue.Receive"]
 		zero := needFn(r, "s/swarmutil", "zeroMessage")
@@ -368,7 +381,7 @@ func c14(r *core.Report) {
 					zeroAfterFn = false
 				}
 			}
-			r.Check(afterFn && afterZero && zeroAfterFn, "C14-FREELIST", core.FnName(recv)+" return to freelist", p.Pos(sd.Pos()), "the buffer is zeroed and returned only after the callback returned", "a buffer can go back to the freelist before the callback has returned (another Deliver overwrites a message the callback is still reading), or without being zeroed")
+			r.Check(afterFn && afterZero && zeroAfterFn, ruleID, core.FnName(recv)+" return to freelist", p.Pos(sd.Pos()), "the buffer is zeroed and returned only after the callback returned", "a buffer can go back to the freelist before the callback has returned (another Deliver overwrites a message the callback is still reading), or without being zeroed")
 		}
 		for _, name := range []string{"Queue.Deliver", "Queue.DeliverVec"} {
 			fn := h.fns[name]
@@ -390,7 +403,7 @@ func c14(r *core.Report) {
 						continue
 					}
 					ok := rebuiltFromZero(p, st.Send, 0)
-					r.Check(ok, "C14-FREELIST", core.FnName(fn)+" queue send", p.Pos(sel.Pos()), "the queued message's payload was rebuilt by appending to payload[:0]", "a recycled buffer is queued without its payload being rebuilt from length 0: old contents become visible as part of another message")
+					r.Check(ok, ruleID, core.FnName(fn)+" queue send", p.Pos(sel.Pos()), "the queued message's payload was rebuilt by appending to payload[:0]", "a recycled buffer is queued without its payload being rebuilt from length 0: old contents become visible as part of another message")
 				}
 			}
 		}
@@ -557,4 +570,129 @@ func ruleRespFence(r *core.Report, ruleID string) {
 		}
 	}
 	r.Check(n2 > 0 && ok2, ruleID, core.FnName(aw)+" cancel path", p.Pos(aw.Pos()), "when the context ends, await runs the ask's once (abort) before returning", "await returns on a cancelled context without passing through the ask's once: a reply that arrives at that moment is still copied into the response buffer after Ask has returned it to the caller (a write into memory the caller owns again)")
+}
+
+// ruleDeliverOwned: every call of TellHub.Deliver / AskHub.Deliver / Queue.Deliver outside swarmutil passes a
+// message whose Payload does not derive from a slice stored in a field of heap state. The receive workers of a
+// layer run concurrently (1+GOMAXPROCS of them) and the callback runs after the layer's own locks are released,
+// so a payload decrypted or assembled into a per-peer or per-swarm buffer is overwritten by the next message
+// while the callback still reads it. Derivation is the backward slice of the Payload component (through call
+// arguments, and through the results of module callees two levels deep).
+func ruleDeliverOwned(r *core.Report, h *hubSlots, ruleID string) {
+	p := r.P
+	targets := map[*ssa.Function]string{}
+	for _, n := range []string{"TellHub.Deliver", "AskHub.Deliver", "Queue.Deliver"} {
+		if f := h.fns[n]; f != nil {
+			targets[f] = n
+		}
+	}
+	isByteSlice := func(t types.Type) bool {
+		sl, ok := t.Underlying().(*types.Slice)
+		if !ok {
+			return false
+		}
+		if b, ok := sl.Elem().Underlying().(*types.Basic); ok && b.Kind() == types.Byte {
+			return true
+		}
+		if s2, ok := sl.Elem().Underlying().(*types.Slice); ok {
+			b, ok := s2.Elem().Underlying().(*types.Basic)
+			return ok && b.Kind() == types.Byte
+		}
+		return false
+	}
+	// shared: the backing array may be the one held in a byte-slice field of a module struct that is
+	// reached through a pointer (heap state), not through a local cell
+	sharedIn := func(v ssa.Value) (ssa.Value, bool) {
+		var hit ssa.Value
+		core.BackingOrigins(p, v, 3, func(x ssa.Value) bool {
+			if hit != nil {
+				return false
+			}
+			fa, ok := x.(*ssa.FieldAddr)
+			if !ok {
+				return true
+			}
+			st, _ := derefType(fa.X.Type()).Underlying().(*types.Struct)
+			if st == nil {
+				return true
+			}
+			f := st.Field(fa.Field)
+			if !isByteSlice(f.Type()) {
+				return true
+			}
+			if _, local := fa.X.(*ssa.Alloc); local {
+				return true
+			}
+			if f.Pkg() == nil || !strings.HasPrefix(f.Pkg().Path(), core.ModPath) {
+				return false // a library object's own buffer (ssh.Request.Payload): one per request
+			}
+			if isMessageType(p, derefType(fa.X.Type())) {
+				return false // the payload of a message the function was lent (C14-BORROW-RECV decides those)
+			}
+			hit = fa
+			return false
+		})
+		return hit, hit != nil
+	}
+	for _, fn := range p.ModFuncs {
+		if strings.Contains(fn.String(), "swarmtest") || strings.Contains(fn.String(), "p2ptest") || strings.Contains(fn.String(), "/swarmutil.") {
+			continue
+		}
+		for _, in := range core.AllInstrs(fn) {
+			ci, ok := in.(ssa.CallInstruction)
+			if !ok {
+				continue
+			}
+			callee := core.StaticCallee(ci.Common())
+			if callee == nil {
+				continue
+			}
+			name, isT := targets[callee.Origin()]
+			if !isT {
+				name, isT = targets[callee]
+			}
+			if !isT {
+				continue
+			}
+			var msg ssa.Value
+			for _, a := range ci.Common().Args {
+				if isMessageType(p, a.Type()) {
+					msg = a
+				}
+			}
+			if msg == nil {
+				continue
+			}
+			r.Analysed(fn)
+			// the Payload component: stores into the Payload field of the literal's cell, else the whole value
+			var srcs []ssa.Value
+			if u, isLoad := msg.(*ssa.UnOp); isLoad {
+				if a := core.CellOf(u); a != nil {
+					for _, ref := range *a.Referrers() {
+						if fa, isFA := ref.(*ssa.FieldAddr); isFA {
+							st := derefType(fa.X.Type()).Underlying().(*types.Struct)
+							if st.Field(fa.Field).Name() == "Payload" {
+								srcs = append(srcs, nestedStores(fa)...)
+							}
+						}
+					}
+				}
+			}
+			if len(srcs) == 0 {
+				srcs = []ssa.Value{msg}
+			}
+			c := fmt.Sprintf("%s call %s", core.FnName(fn), name)
+			var bad ssa.Value
+			for _, sv := range srcs {
+				if hv, isBad := sharedIn(sv); isBad {
+					bad = hv
+				}
+			}
+			if bad != nil {
+				r.Violation(ruleID, c, p.Pos(in.Pos()), fmt.Sprintf("the delivered payload derives from the slice held in %s (%s): the next message handled by another worker overwrites it while the callback still reads this one", bad.String(), p.Pos(bad.Pos())))
+			} else {
+				r.OK(ruleID, c, p.Pos(in.Pos()), "the payload derives from the incoming message, a call-local buffer or a fresh allocation only")
+			}
+		}
+	}
 }
